@@ -928,7 +928,9 @@ class C20(vlib.Spec):
             "position (probability 0/0.3/0.55/0.8/1 per statement), two independent parameter sets per statement drawn as "
             "good / one-or-two-bad / wrong-count / random-type, values from a hostile pool (quotes, backslashes, keywords, "
             "comment markers, parentheses, list syntax, NUL, unicode, 5000-char strings, int64 extremes, empty/mixed arrays, "
-            "nil entries, invalid timestamps); non-trivial = distinct case with at least one placeholder")
+            "nil entries, invalid timestamps); a fifth of the cases are sequences of 2-5 near-duplicate statements (whitespace "
+            "inside/between literals, case, unknown suffixes, one-character changes, '?' vs placeholder) through one fresh "
+            "prepared-statement cache of size 1/2/8; non-trivial = distinct case with at least one placeholder")
 
     def __init__(self):
         self.hist = {}
